@@ -2168,7 +2168,7 @@ for _k, _v in py2lean_sweep.FILES.items():
 # the matching engine (what bottleneck / wasserstein do behind the augmented matrix) registers its files the same way
 MATCHING_KEYS = set()
 from . import py2lean_matching  # noqa: E402
-for _k, _v in py2lean_matching.FILES.items():
+for _k, _v in getattr(py2lean_matching, "FILES", {}).items():   # (empty when that module is being imported first: it registers itself)
     FILES[_k] = _v[:5]
     MATCHING_KEYS.add(_k)
 
